@@ -2,6 +2,7 @@
    Property theorems only; proofs in ConcProofs.v. Partial: see the note below. *)
 From Coq Require Import List ZArith NArith Bool.
 From Verif Require Import Conc ConcProofs.
+From Verif Require ConcTrace ConcTraceProofs.
 Import ListNotations.
 
 (* The concurrency operator (producer, drain goroutine, channel of capacity 2)
@@ -26,8 +27,23 @@ Theorem C14_partial_success_without_recheck :
 Proof. exact partial_success_reachable_without_recheck. Qed.
 Print Assumptions C14_partial_success_without_recheck.
 
+(* The operator driven directly by a consumer (the context is cancelled only by
+   an explicit cancel(), at any moment): the same safety properties. *)
+Theorem C14_concurrency_operator_safe_raw : forallb (check_all_raw true) totals = true.
+Proof. exact concurrency_operator_safe_raw. Qed.
+Print Assumptions C14_concurrency_operator_safe_raw.
+
+(* The transition system with observable labels (calls into the child and
+   their results, what Next returns to the consumer, begin and end of cancel()),
+   against which the logs of the real operator are checked on every run,
+   refines the system the safety theorems are about. *)
+Theorem C14_labelled_system_refines : forallb (ConcTrace.refinement_ok true) totals = true.
+Proof. exact ConcTraceProofs.labelled_system_refines. Qed.
+Print Assumptions C14_labelled_system_refines.
+
 (* PARTIAL. Finite-state, bounded (0..6 batches) model of one concurrency
-   operator below Exec; workers, the coalesce fan-out and remote execution are
+   operator below Exec (tied to the real operator by trace conformance:
+   ConcTrace.accepts on logs recorded by the harness); workers, the coalesce fan-out and remote execution are
    not in the LTS, wall-clock bounds and scheduler fairness are runtime facts.
    Those are decided by the cancellation oracles (every callback index, blocking
    storage, Cancel() racing Exec, goroutine count after Close, stress loop). *)
